@@ -700,7 +700,7 @@ func registerIntrinsics(ex *Executor) {
 		return smt.Eq(args[0].(*smt.Term), args[1].(*smt.Term)), cNext
 	}
 	I["(time.Time).IsZero"] = func(ex *Executor, st *State, cc *CallCtx, args []Val) (Val, ctl) {
-		return smt.Eq(args[0].(*smt.Term), smt.IntC(0)), cNext
+		return smt.Eq(args[0].(*smt.Term), ZeroTime()), cNext
 	}
 	I["(time.Time).UnixNano"] = func(ex *Executor, st *State, cc *CallCtx, args []Val) (Val, ctl) {
 		return args[0].(*smt.Term), cNext
